@@ -35,7 +35,17 @@ func (e *Engine) doCall(st *State, fr *frame, in *ssa.Call, depth int) []Outcome
 				return e.inline(st, fn, append([]Val{recv}, args...), nil, depth)
 			}
 		}
-		res := e.appOfType("invoke:"+name, rt, append([]Val{recv}, args...)...)
+		iname := "invoke:" + name
+		if e.SeqCalls != nil && e.SeqCalls(name) {
+			n := 0
+			for _, ev := range st.events {
+				if ev.Fn == name {
+					n++
+				}
+			}
+			iname = fmt.Sprintf("invoke:%s@%d", name, n)
+		}
+		res := e.appOfType(iname, rt, append([]Val{recv}, args...)...)
 		st.events = append(st.events, Event{Kind: "invoke", Fn: name, Recv: recv, Args: args, Res: res, Pos: in.Pos()})
 		return []Outcome{valueOutcome(st, res)}
 	}
@@ -92,7 +102,17 @@ func (e *Engine) staticCall(st *State, fn *ssa.Function, args, bindings []Val, r
 		return e.inline(st, fn, args, bindings, depth)
 	}
 	short := shortFn(fn)
-	res := e.appOfType("call:"+short, rt, args...)
+	cname := "call:" + short
+	if e.SeqCalls != nil && e.SeqCalls(short) {
+		n := 0
+		for _, ev := range st.events {
+			if ev.Fn == short {
+				n++
+			}
+		}
+		cname = fmt.Sprintf("call:%s@%d", short, n)
+	}
+	res := e.appOfType(cname, rt, args...)
 	st.events = append(st.events, Event{Kind: "call", Fn: short, Args: args, Res: res, Pos: in.Pos()})
 	return []Outcome{valueOutcome(st, res)}
 }
@@ -168,6 +188,17 @@ func (e *Engine) model(st *State, name string, fn *ssa.Function, args []Val, rt 
 		return one(&Opaque{Key: "sprintf(" + valKey(args[0]) + "," + valKey(Tuple(el)) + ")", Type: rt, Fn: "sprintf", Args: append([]Val{args[0]}, el...)})
 	case "(*sync.Once).Do":
 		return one(nil)
+	case "(*strings.Builder).WriteByte":
+		st.events = append(st.events, Event{Kind: "call", Fn: "(*strings.Builder).WriteByte", Args: args, Pos: in.Pos()})
+		return one(&ErrVal{IsNil: true})
+	case "(*strings.Builder).Len":
+		n := int64(0)
+		for _, ev := range st.events {
+			if ev.Fn == "(*strings.Builder).WriteByte" && len(ev.Args) > 0 && valKey(ev.Args[0]) == valKey(args[0]) {
+				n++
+			}
+		}
+		return one(formInt(n))
 	case "image.NewRGBA", "image.NewNRGBA", "image.NewRGBA64", "image.NewNRGBA64":
 		// a fresh image whose Rect is the argument; pixel storage is a fresh
 		// opaque slice (contract of the image package constructors)
@@ -248,6 +279,10 @@ func (e *Engine) model(st *State, name string, fn *ssa.Function, args []Val, rt 
 
 func (e *Engine) streamPos(st *State, s *Stream) *Form {
 	if p, ok := st.pos[s]; ok {
+		if r := st.resolve(p); r != p {
+			st.pos[s] = r
+			return r
+		}
 		return p
 	}
 	st.pos[s] = formInt(0)
